@@ -1,4 +1,193 @@
-import SdModel.Model.Derive
+import SdModel.Lemmas.DeriveKnot
+
+/-!
+# C13 — recursive map diff: keys converge exactly, values converge through nested diffs
+
+`RMap.hashcmp N prev cur keyOnly` / `RMap.apply N base d` model
+`unordered_map_like_recursive::{unordered_hashcmp, apply_unordered_hashdiffs}`; `N : Nested` is what the code
+uses of the value type (`==`, `diff_ref`, `apply_mut`).  Maps are association lists with distinct keys
+(`NoDupK`), observed through `kget`, so every statement is independent of hash-map iteration order.
+The first group of theorems is generic in `N` and in the BASE the diff is applied to; the second instantiates `N`
+with a derived value type (`Derive.nestedOf (semTy t)`), where "equals current's value on all unskipped nested
+fields" is `(relTy t).post`.
+-/
 namespace C13
-theorem placeholder : True := trivial
+open RMap
+
+section Generic
+variable {κ ν δ : Type} [DecidableEq κ]
+
+/-- the diff is absent exactly when the key sets agree and — unless key-only — all retained values are equal -/
+theorem absent_iff (N : Nested ν δ) (prev cur : KV κ ν) (hp : NoDupK prev) (hc : NoDupK cur) (keyOnly : Bool) :
+    hashcmp N prev cur keyOnly = none ↔
+      (∀ k, (kget prev k).isSome = (kget cur k).isSome) ∧
+      (keyOnly = false → ∀ k pv cv, kget prev k = some pv → kget cur k = some cv → N.veq pv cv = true) := by
+  rw [hashcmp_eq N prev cur hp hc]
+  constructor
+  · intro h
+    split at h
+    · cases h
+    · split at h
+      · rename_i hemp
+        exact (entries_nil_iff N keyOnly prev cur hp).mp (by simpa using hemp)
+      · cases h
+  · intro h
+    have hnil := (entries_nil_iff N keyOnly prev cur hp).mpr h
+    have hlen : prev.length = cur.length := by
+      have hperm : (keys prev).Perm (keys cur) := by
+        rw [List.perm_ext_iff_of_nodup hp hc]
+        intro k
+        rw [← kget_isSome_iff, ← kget_isSome_iff, h.1 k]
+      simpa [keys] using hperm.length_eq
+    rw [if_neg (by omega)]
+    simp [hnil]
+
+/-- **keys and values after applying the diff of (prev, cur) to prev** — either representation:
+exactly current's keys; a new key carries current's value; a retained key carries its old value patched in place by
+the nested diff (key-and-value mode, values differing), its old value (key-only mode, or values equal), or — when the
+whole-map replacement is chosen — current's value -/
+theorem roundtrip (N : Nested ν δ) (prev cur : KV κ ν) (hp : NoDupK prev) (hc : NoDupK cur) (keyOnly : Bool)
+    (d : Diff κ ν δ) (h : hashcmp N prev cur keyOnly = some d) :
+    NoDupK (apply N prev d) ∧
+    ∀ k, match kget cur k with
+      | none => kget (apply N prev d) k = none
+      | some cv =>
+        kget (apply N prev d) k = some cv ∨
+        ∃ pv, kget prev k = some pv ∧ kget (apply N prev d) k = some (patchOf N keyOnly pv cv pv) := by
+  rw [hashcmp_eq N prev cur hp hc] at h
+  split at h
+  · cases h
+    refine ⟨hc, fun k => ?_⟩
+    cases hk : kget cur k with
+    | none => simpa [apply] using hk
+    | some cv => exact .inl (by simpa [apply] using hk)
+  · split at h
+    · cases h
+    · cases h
+      refine ⟨(apply_modify_kget N prev hp _).1, fun k => ?_⟩
+      have := apply_entries_kget N keyOnly prev cur prev hp hc hp k
+      cases hk : kget cur k with
+      | none =>
+        rw [hk] at this
+        cases hpk : kget prev k with
+        | none => rw [hpk] at this; simpa [hpk] using this
+        | some pv => rw [hpk] at this; simpa using this
+      | some cv =>
+        rw [hk] at this
+        cases hpk : kget prev k with
+        | none => rw [hpk] at this; exact .inl (by simpa using this)
+        | some pv =>
+          rw [hpk] at this
+          simp only [hpk, Option.map_some] at this
+          exact .inr ⟨pv, rfl, this⟩
+
+/-- in key-only mode a retained key keeps exactly its old value (or gets current's under whole-map replacement) -/
+theorem keyOnly_retained (N : Nested ν δ) (pv cv v : ν) : patchOf N true pv cv v = v := by simp [patchOf]
+
+/-- in key-and-value mode an unchanged retained value is left alone, a changed one is patched by the nested diff -/
+theorem keyValue_patch (N : Nested ν δ) (pv cv v : ν) :
+    patchOf N false pv cv v = if N.veq pv cv then v else N.applyMut v (N.diff pv cv) := by
+  simp only [patchOf, Bool.not_false, Bool.true_and]
+  cases N.veq pv cv <;> simp
+
+/-- keys a diff value mentions as insertions / carries -/
+def insertedKeys : Diff κ ν δ → List κ
+  | .replace r => keys r
+  | .modify es => es.filterMap fun e => match e with | .insert k _ => some k | _ => none
+
+theorem insV_some_mem (es : List (Change κ ν δ)) (k : κ) (v : ν) (h : insV es k none = some v) :
+    k ∈ insertedKeys (.modify es : Diff κ ν δ) := by
+  suffices ∀ (i : Option ν), insV es k i = some v → i = some v ∨ k ∈ insertedKeys (.modify es : Diff κ ν δ) by
+    rcases this none h with h | h
+    · cases h
+    · exact h
+  clear h
+  induction es with
+  | nil => intro i hi; exact .inl (by simpa using hi)
+  | cons e es ih =>
+    intro i hi
+    cases e with
+    | insert k' w =>
+      simp only [insV_cons_insert] at hi
+      rcases ih _ hi with h | h
+      · by_cases hk : k' = k
+        · subst hk; exact .inr (by simp [insertedKeys])
+        · simp only [hk, if_false] at h; exact .inl h
+      · exact .inr (by simp only [insertedKeys, List.filterMap_cons] at h ⊢; exact List.mem_cons_of_mem _ h)
+    | change k' d =>
+      simp only [insV_cons_change] at hi
+      rcases ih _ hi with h | h
+      · exact .inl h
+      · exact .inr (by simpa [insertedKeys] using h)
+    | remove k' =>
+      simp only [insV_cons_remove] at hi
+      rcases ih _ hi with h | h
+      · exact .inl h
+      · exact .inr (by simpa [insertedKeys] using h)
+
+/-- applying ANY diff value to ANY base map (distinct keys) is total in the map algebra — removing an absent key,
+patching an absent key are no-ops, as in the code — and yields a map (every key once) with only keys from the base or
+inserted by the diff (the nested `apply_mut` is the only thing that can panic: `Derive.rmapPanics`) -/
+theorem apply_total_keys (N : Nested ν δ) (base : KV κ ν) (hb : NoDupK base) (d : Diff κ ν δ)
+    (hd : match d with | .replace r => NoDupK r | .modify _ => True) :
+    NoDupK (apply N base d) ∧ ∀ k, (kget (apply N base d) k).isSome → (kget base k).isSome ∨ k ∈ insertedKeys d := by
+  cases d with
+  | replace r =>
+    refine ⟨hd, fun k hk => .inr ?_⟩
+    exact (kget_isSome_iff r k).mp hk
+  | modify es =>
+    obtain ⟨h1, h2⟩ := apply_modify_kget N base hb es
+    refine ⟨h1, fun k hk => ?_⟩
+    rw [h2 k] at hk
+    cases hi : (if es.any (isRem k) = true then none else kget base k) with
+    | some v =>
+      left
+      split at hi
+      · cases hi
+      · rw [hi]; rfl
+    | none =>
+      right
+      rw [hi] at hk
+      simp only [Option.map_none] at hk
+      cases hv : insV es k none with
+      | none => rw [hv] at hk; cases hk
+      | some v => exact insV_some_mem es k v hv
+
+end Generic
+
+/-! ### values deriving `Difference` -/
+section Derived
+open Derive
+
+/-- **C13 at the level of a derived field** (`recurse` + `unordered_map_like`), for any value type `t`, applied
+to any follower base: never panics, exactly current's keys, and every value is current's value or the base's value
+patched to agree with current's on all unskipped nested fields (key-only: current's or the base's value) -/
+theorem derived_field (ko : Bool) (t : Ty) (a b f : Val)
+    (ha : (relKind (.recMap ko t)).wt a) (hb : (relKind (.recMap ko t)).wt b) (hf : (relKind (.recMap ko t)).wt f)
+    (he : (relKind (.recMap ko t)).equiv a f) (p : Payload) (hd : (semKind (.recMap ko t)).diff a b = some p) :
+    ∃ r, (semKind (.recMap ko t)).apply f p = .ok r ∧ (relKind (.recMap ko t)).wt r ∧
+      (∀ k, (kget (asRMap r) k).isSome = (kget (asRMap b) k).isSome) ∧
+      ∀ k cv rv, kget (asRMap b) k = some cv → kget (asRMap r) k = some rv →
+        rv = cv ∨ ∃ fv, kget (asRMap f) k = some fv ∧ (if ko then rv = fv else (relTy t).post fv cv rv) := by
+  obtain ⟨r, h1, h2, h3⟩ := (spec_kind (.recMap ko t)).follow a b f p ha hb hf he hd
+  refine ⟨r, h1, h2, ?_⟩
+  simpa [relKind, recMapRel] using h3
+
+/-- the field's diff is absent exactly when the maps are equal (key-and-value) / have equal key sets (key-only) -/
+theorem derived_absent_iff (ko : Bool) (t : Ty) (a b : Val)
+    (ha : (relKind (.recMap ko t)).wt a) (hb : (relKind (.recMap ko t)).wt b) :
+    (semKind (.recMap ko t)).diff a b = none ↔
+      (∀ k, (kget (asRMap a) k).isSome = (kget (asRMap b) k).isSome) ∧
+      (ko = false → ∀ k pv cv, kget (asRMap a) k = some pv → kget (asRMap b) k = some cv → pv = cv) := by
+  have := (spec_kind (.recMap ko t)).none_iff a b ha hb
+  simpa [relKind, recMapRel] using this
+
+end Derived
+
+/-- both representations and all three entry kinds occur -/
+example : hashcmp (⟨fun a b => a == b, fun _ b => b, fun _ d => d⟩ : Nested Nat Nat) [(1, 10), (2, 20), (3, 30)] [(1, 11), (3, 30), (4, 40)] false
+    = some (.modify [.change 1 11, .remove 2, .insert 4 40]) := by decide
+example : hashcmp (⟨fun a b => a == b, fun _ b => b, fun _ d => d⟩ : Nested Nat Nat) [(1, 10), (2, 20), (3, 30)] [(1, 11)] false
+    = some (.replace [(1, 11)]) := by decide
+
 end C13
